@@ -253,7 +253,7 @@ def rewrite_source(fn_text, rewrites, extra=None):
             raise ExtractError('rewrite absexpr:%s: the abstracted expression changed (sha %s, contract written for %s): its assumed contract may no longer describe it' % (v, got, sha))
         edits.append((toks[i + 3].pos, toks[j - 1].end, call))
         applied.append('initialiser of `%s` (%d tokens: `%s`) replaced by the ASSUMED contract of `%s`: that expression is NOT verified' % (v, len(expr_toks), ' '.join(expr_toks), call))
-    # R8: `for PAT in X.by_ref() { BODY }` -> `loop { match X.next() { Some(PAT) => { BODY } None => break, } }` (Verus has no
+    # R8: `for PAT in X.by_ref() { BODY }` (or `for PAT in &mut X { BODY }`) -> `loop { match X.next() { Some(PAT) => { BODY } None => break, } }` (Verus has no
     #     specification for `by_ref` / for-loops over `&mut I`). Declared per function as `rewrites=forbyref2loop`. This is the
     #     definition of `for` over `&mut I` (`<&mut I as Iterator>::next` is `I::next`); `break` / `continue` in BODY bind to
     #     the new loop exactly as they did to the `for`. Refused when BODY contains a loop label.
@@ -272,12 +272,14 @@ def rewrite_source(fn_text, rewrites, extra=None):
                 while k < len(toks) and T[k] != '{':
                     if T[k] in ('(', '['): k = R.match_close(toks, k)
                     k += 1
-                if k < len(toks) and k - 4 > j and T[k - 4:k] == ['.', 'by_ref', '(', ')']:
+                byref = k < len(toks) and k - 4 > j and T[k - 4:k] == ['.', 'by_ref', '(', ')']
+                mutref = k < len(toks) and k - 2 > j and T[j + 1:j + 3] == ['&', 'mut']      # `for PAT in &mut X {`: the same desugaring
+                if byref or mutref:
                     b1 = R.match_close(toks, k)
                     if any(t.kind == 'lifetime' for t in toks[k:b1]) or any(t.startswith("'") and len(t) > 1 and not t.endswith("'") for t in T[k:b1]):
                         raise ExtractError('rewrite forbyref2loop: the loop body uses a label')
                     pat = fn_text[toks[i + 1].pos:toks[j - 1].end]
-                    recv = fn_text[toks[j + 1].pos:toks[k - 5].end]
+                    recv = fn_text[toks[j + 1].pos:toks[k - 5].end] if byref else fn_text[toks[j + 3].pos:toks[k - 1].end]
                     edits.append((toks[i].pos, toks[k].end, 'loop { match %s.next() { Some(%s) => {' % (recv, pat)))
                     edits.append((toks[b1].pos, toks[b1].end, '} None => break, } }'))
                     n += 1
